@@ -16,6 +16,8 @@
 EXTENDS Fidelity
 
 P == INSTANCE JsonPrinter WITH DevAstralFiveHex <- TRUE
+\* the lexer with the numbers as jawk holds them (whole doubles inside the integer range are integers): what the printer is given
+LJ == INSTANCE JsonLexer WITH DoubleOf <- JawkDoubleOf, DevLowerCaseExponentOnly <- FALSE
 VARIABLE l
 
 RECURSIVE Strip(_, _, _, _)
@@ -63,10 +65,13 @@ Check(r) ==
      ELSE IF r.one2 # r.one \/ r.con2 # r.con \/ r.pre2 # r.pre THEN Flag("MISMATCH", r.case, "feeding the output back does not reproduce it byte for byte")
      ELSE IF r.known /\ LET ref == R!StrictParseStream(r.in) IN ~ref.ok \/ ~SameSeq(ref.vals, one.vals)
           THEN Flag("MISMATCH", r.case, "a row does not denote the value that was output")
-     ELSE LET lv == L!ValuesOf(L!LexRun(r.in).out) IN
+     ELSE LET lv == LJ!ValuesOf(LJ!LexRun(r.in).out) IN
           IF r.known /\ (Len(lv) # n \/ \E i \in 1..n : RowText(r.one, one.spans[i]) # P!PrintValue(lv[i], "one-line", r.utf8)
                                                         \/ RowText(r.pre, pre.spans[i]) # P!PrintValue(lv[i], "pretty", r.utf8))
-          THEN Flag("DRIFT", r.case, "bytes differ from JsonPrinter")
+          THEN Flag("DRIFT", r.case, <<"bytes differ from JsonPrinter; first row", IF Len(lv) # n THEN 0 ELSE
+                    CHOOSE i \in 1..n : (RowText(r.one, one.spans[i]) # P!PrintValue(lv[i], "one-line", r.utf8) \/ RowText(r.pre, pre.spans[i]) # P!PrintValue(lv[i], "pretty", r.utf8))
+                                         /\ \A j \in 1..(i - 1) : RowText(r.one, one.spans[j]) = P!PrintValue(lv[j], "one-line", r.utf8), "model prints",
+                    IF Len(lv) # n THEN <<>> ELSE P!PrintValue(lv[CHOOSE i \in 1..n : RowText(r.one, one.spans[i]) # P!PrintValue(lv[i], "one-line", r.utf8) \/ RowText(r.pre, pre.spans[i]) # P!PrintValue(lv[i], "pretty", r.utf8)], "one-line", r.utf8)>>)
           ELSE TRUE
 
 Init == l = 1
